@@ -26,18 +26,28 @@ def gen_cases(rng, n):
                     phi = bi(rng.choice(["and", "or"]), phi, rng.choice([un("alw", var(rng.choice(vs))), un("next", var(vs[0])), g.formula(1)]))
             else:
                 phi = g.formula(rng.choice([1, 2, 3]))
+            if k > 0 and rng.random() < 0.4:
+                # another live object with the same (or a wrapped copy of the same) formula: same printed operator names
+                phi0 = objs[0]["phi"]
+                if not (online and (ops_of(phi0) & FUT)):
+                    phi = phi0 if rng.random() < 0.5 else un("not", phi0)
             allv = vs
             fac = ("StlDiscreteTimeOnlineSpecification" if online else "StlDiscreteTimeOfflineSpecification") if rng.random() < 0.5 else "StlDiscreteTimeSpecification"
             objs.append(dt_obj(phi, S, allv, factory=fac))
             kinds.append(online)
         N = rng.choice([1, 2, 3, 4, 6])
         w = gen_trace(rng, vs, N, S)
+        own = rng.random() < 0.5          # online objects get their own data stream (cross-talk between objects shows)
         # one caller-owned data set shared by every offline object and evaluated repeatedly
         evs = [ev_parse(k + 1) for k in range(K)]
         steps = []
         for k in range(K):
             if kinds[k]:
-                steps.append([ev_update(t, sample_at(w, t), k + 1, share="s%d" % t) for t in range(N)])
+                if own:
+                    wk = gen_trace(rng, vs, N, S)
+                    steps.append([ev_update(t, sample_at(wk, t), k + 1) for t in range(N)])
+                else:
+                    steps.append([ev_update(t, sample_at(w, t), k + 1, share="s%d" % t) for t in range(N)])
             else:
                 reps = rng.choice([1, 2, 3])
                 steps.append([ev_evaluate(range(N), w, k + 1, share="data") for _ in range(reps)])
